@@ -1,6 +1,7 @@
 import PeptVerif.Model.Proto
 import PeptVerif.Model.Score
 import PeptVerif.Spec.Score
+import PeptVerif.Model.ScoreFrag
 /-! driver for C17: the model of score.py and the brute-force specification, both evaluated at `Float`.
 Floats travel as the decimal value of their 64 IEEE bits. -/
 open Proto Score
@@ -42,15 +43,40 @@ def showExcept {β : Type} (f : β → String) : Except Err β → String
   | .ok v => f v
   | .error e => e.show
 
-def parseCovIn? (s : String) : Option CovIn :=
+def parseCovIn? (s : String) : Option (CovIn Nat) :=
   match s.splitOn ":" with
   | [k, c, ion, a, b] => do
     let k ← k.toNat?; let c ← c.toNat?; let a ← a.toNat?; let b ← b.toNat?
     pure ⟨k, c, ion, a, b⟩
   | _ => none
 
-def parseCovIns? (s : String) : Option (List CovIn) :=
+def parseCovIns? (s : String) : Option (List (CovIn Nat)) :=
   if s.isEmpty then some [] else (s.splitOn ";").mapM parseCovIn?
+
+def ionOfName (s : String) : Fragment.Ion :=
+  let all : List Fragment.Ion := Fragment.Ion.terminalTypes ++ Fragment.Ion.internalTypes ++ [Fragment.Ion.I]
+  match all.find? (fun t => t.name == s.toList) with
+  | some t => t
+  | none => .other s.toList
+
+def parseRatFrac? (s : String) : Option Rat :=
+  match s.splitOn "/" with
+  | [a, b] => do
+    let a ← a.toInt?; let b ← b.toNat?
+    if b = 0 then none else pure ((a : Rat) / (b : Rat))
+  | _ => none
+
+/-- one `FragmentMatch` as `get_match_coverage` sees it: charge:ion:start:stop:isotope:loss(num/den):mono:internal -/
+def parseFragMatch? (n : Nat) (s : String) : Option FragMatch :=
+  match s.splitOn ":" with
+  | [c, ion, a, b, iso, loss, mono, intl] => do
+    let c ← c.toInt?; let a ← a.toInt?; let b ← b.toInt?; let iso ← iso.toInt?
+    let loss ← parseRatFrac? loss; let mono ← parseBool? mono; let intl ← parseBool? intl
+    let parent : Pept.Annotation := { seq := List.replicate n 'A' }
+    pure ⟨{ charge := c, ion := ionOfName ion, start := a, stop := b, monoisotopic := mono, isotope := iso, loss := loss,
+            parent := parent, mass := 0, neutralMass := 0, mz := 0, sequence := parent, unmodSequence := [],
+            internal := intl }, 0, 0⟩
+  | _ => none
 
 def firstBad (l : List Bool) : String :=
   match l.findIdx? (· == false) with
@@ -107,6 +133,15 @@ def step (line : String) : String :=
       showExcept (fun cov => ";".intercalate (cov.map fun (l, c) => toString l.1 ++ ":" ++ l.2 ++ "=" ++ showNats c))
         (matchCoverage d n ents)
     | _, _, _ => "bad-op"
+  | ["covf", n, ents] =>
+    match n.toNat? with
+    | some n =>
+      match (if ents.isEmpty then some [] else (ents.splitOn ";").mapM (parseFragMatch? n)) with
+      | some ms =>
+        showExcept (fun cov => ";".intercalate (cov.map fun (l, c) => toString l.1 ++ ":" ++ l.2 ++ "=" ++ showNats c))
+          (getMatchCoverageF ms)
+      | none => "bad-op"
+    | none => "bad-op"
   | _ => "bad-op"
 
 def main : IO Unit := runDriver step
